@@ -116,6 +116,8 @@ def main(argv=None):
     tier = args.tier if args.tier in ("quick", "thorough") else "quick"
     seed = int(os.environ.get("VERIF_SEED", "0") or 0)
     os.environ["PYVC_TIER"] = tier        # units may widen their enumerations in the thorough tier
+    if tier == 'thorough':
+        os.environ.setdefault("PYVC_BOUNDED_SECS", "150")     # longer bounded companions (the quick tier caps them at 45 s)
     t_start = time.time()
     ensure_deps()
     OUT = os.environ.get("PYVC_OUT", VERIF)          # scratch runs (mutant matrix) write elsewhere
@@ -156,10 +158,23 @@ def main(argv=None):
             extra_obs.extend(obs)
             for k, v in meta.items():
                 extra_meta[k] = v
-        except Exception:
-            traceback.print_exc()
-            print("CHECKER-CRASH property=%s (extra back end %s)" % (prop, getattr(fn, '__name__', fn)))
-            return 3
+        except Exception as e:
+            # an exception raised INSIDE the code under test while a bounded / enumerating back end was calling it with an input
+            # the property covers is a finding about that code, not a checker crash
+            tb = traceback.extract_tb(e.__traceback__)
+            from pyvc import REPO as _REPO
+            inner = tb[-1].filename if tb else ''
+            under_test = os.path.abspath(inner).startswith(os.path.abspath(_REPO) + os.sep) or '/modules/' in inner and \
+                not os.path.abspath(inner).startswith(VERIF + os.sep)
+            if not under_test:
+                traceback.print_exc()
+                print("CHECKER-CRASH property=%s (extra back end %s)" % (prop, getattr(fn, '__name__', fn)))
+                return 3
+            text = ''.join(traceback.format_exception(type(e), e, e.__traceback__))[-3000:]
+            extra_obs.append(dict(name="%s: the code under test raised %s on an input of this back end" % (getattr(fn, '__name__', 'backend'),
+                                                                                                   type(e).__name__),
+                                  kind='B', solver='bounded', status='failed', secs=0.0, evaluations=1, detail=text[-600:],
+                                  replay=dict(kind='custom', reproduced=True, native=dict(traceback=text))))
 
     known = [k for k in load_known() if k.get('property') == prop and k.get('status') == 'known']
     crashes = [r for r in results if r['crash']]
